@@ -33,6 +33,7 @@ def check(ck):
     r05_3(ck)
     r05_4(ck)
     r05_5(ck)
+    r05_6(ck)
 
 
 def _loop_of(x, stop):
@@ -476,3 +477,22 @@ def r05_5(ck):
         ck.require(ok, 'R05.5', app, c,
                    'only steps found among the processes are registered as '
                    'steps', None, c)
+
+
+def r05_6(ck):
+    ck.rule('R05.6', 'steps created or moved by structural updates keep '
+            'their place in the flow: reporters report the flow of steps '
+            '(never a None flow, never dropping an empty one) and the '
+            'engine registers each new step with its flow entry of the '
+            'same batch (shared with C10 R10.2 / R10.3)')
+    from . import c10
+    c10.r10_2(ck)
+    c10.r10_3(ck)
+    for o in ck.obligations:
+        if o['rule'] in ('R10.2', 'R10.3'):
+            o['rule'] = 'R05.6'
+    for v in ck.violations:
+        if v.rule in ('R10.2', 'R10.3'):
+            v.rule = 'R05.6'
+    ck.rules.pop('R10.2', None)
+    ck.rules.pop('R10.3', None)
